@@ -80,6 +80,8 @@ def units(tier):
         for vn in ("d4400", "neg_d4400", "b1024"):
             for side, pre in (("client", "search"), ("server", "fresh"), ("server", "opened")):
                 us.append({"name": f"huge_{what}_{vn}_{side}_{pre}", "shape": {"kind": "huge", "what": what, "value": vn, "side": side, "pre": pre}})
+    for side, pre in (("client", "search"), ("server", "fresh")):
+        us.append({"name": f"batch_{side}", "shape": {"kind": "batch", "n": 1500, "side": side, "pre": pre}})
     # prior session histories: two application calls (accepted or refused), then a delivered
     # message of every kind whose id is symbolic
     import itertools
@@ -132,6 +134,25 @@ def body(ctx, shape):
         code = ctx.int("code", 0, 80)
         data = S_.message_for(ctx, shape["recv"], mid, code).pack(S_.po(ctx))
         common.checked_receive(ctx, sess_, side, data)
+        return
+    if kind == "batch":
+        # thousands of complete messages in ONE delivery (a flat repetition, not nesting): the
+        # session has to return them all - work or recursion that grows with the count shows here
+        M = ctx.L.messages
+        n = shape["n"]
+        po = M.PackingOptions()
+        if side == "client":
+            one = M.SearchResultEntry(1, [], "cn=a", []).pack(po)
+            ref = M.SearchResultReference(1, [], ["ldap://x"]).pack(po)
+            data = bytes(one) * n + bytes(ref) * n + bytes(M.SearchResultDone(1, [], M.LDAPResult(M.LDAPResultCode.SUCCESS, "", "")).pack(po))
+            total = 2 * n + 1
+        else:
+            data = b"".join(bytes(M.ExtendedRequest(i, [], "1.2", None).pack(po)) for i in range(1, n + 1))
+            total = n
+        sess_ = common.make_session(ctx, side, pre)
+        r = common.checked_receive(ctx, sess_, side, data)
+        if r[0] == "ok":
+            ctx.require(len(r[1]) == total, "long-delivery-did-not-return-every-message")
         return
     if kind == "huge":
         # integers far beyond any machine word (ids, result codes, limits of thousands of octets):
